@@ -28,7 +28,14 @@ RULE = ("three drivers: (server) C02-style histories on a fresh LocalNode biased
         "ro/const writes, missing index, missing record sub-index, numeric types x payload lengths 0..9 "
         "(expedited, segmented with/without size), entries without value, wrong toggle, ccs 7, block "
         "download, and the access type of an entry changed by the application while serving (every ordered "
-        "pair of rw/ro/wo/const) - placed before/between/after successful transfers; (client_api) the same refusals "
+        "pair of rw/ro/wo/const) - placed before/between/after successful transfers; read callbacks "
+        "(returning a typed value / bytes / None, 1..3 registered) in front of write-only entries, entries "
+        "without value and missing sub-indexes (variable, record member, listed and template-described array "
+        "member; normal and block-upload initiate); a wrong-toggle segment - non-last and LAST with 0..7 "
+        "payload bytes - sent into an open transfer after 0..2 good segments (the last one would otherwise "
+        "complete a valid / a refused write); ccs 7 in the middle of an open transfer (abort must name the "
+        "transfer or echo bytes 1..3); too-short payloads accept 0607 0010/0013, too-long ones 0607 0010/0012; "
+        "(client_api) the same refusals "
         "through RemoteNode.sdo against the library's server, comparing the raised code with the abort "
         "frame on the wire; (decode) a scripted peer aborting with codes {all documented, 0, 1, 2^31, "
         "2^32-1, random} at every protocol step. Oracle: table condition -> CiA 301 code set, "
@@ -83,6 +90,18 @@ def run_client_api(case):
     remote.sdo.RESPONSE_TIMEOUT = 0.05
     wlog = []
     local.add_write_callback(lambda **kw: wlog.append((kw["index"], kw["subindex"], bytes(kw["data"]))))
+    rcb = {(r["index"], r["sub"]): r for r in case.get("read_cb", [])}
+    ncb = case.get("read_cbs") or (1 if rcb else 0)
+
+    def make_rcb(k):
+        def cb(**kw):
+            r = rcb.get((kw["index"], kw["subindex"]))
+            if r is None or r.get("cb", 0) % ncb != k:
+                return None
+            return r["ret"]
+        return cb
+    for k in range(ncb):
+        local.add_read_callback(make_rcb(k))
     m = c02.Model(case)
     D = []
     refusals = 0
@@ -102,7 +121,8 @@ def run_client_api(case):
             if op["op"] == "upload":
                 exp = m.expected_read(index, sub)
                 if op.get("via") == "open":
-                    with remote.sdo.open(index, sub, "rb", buffering=op.get("buffering", 0)) as fp:
+                    with remote.sdo.open(index, sub, "rb", buffering=op.get("buffering", 0),
+                                         block_transfer=bool(op.get("block"))) as fp:
                         result = fp.read()
                 else:
                     result = remote.sdo.upload(index, sub)
@@ -342,6 +362,94 @@ def refusal_matrix():
         yield {"kind": "server", "od": od, "ops": pre + [
             {"op": "download", "index": 0x2100, "sub": 0, "data": b"x" * 30, "style": "seg_nosize", "stop_after": 1},
             {"op": "toggle", "dir": "down", "t": 0}, {"op": "upload", "index": 0x2100, "sub": 0}]}
+    # a segment with the wrong toggle bit sent into an open download after k good segments: not the last
+    # one / flagged as the last one with 0..7 payload bytes (with the right toggle it would complete a
+    # valid write, or one that is refused anyway); into an open upload after k segments
+    od_t = od + [{"kind": "var", "index": 0x2101, "name": "long", "dt": rc.DOMAIN, "access": "rw",
+                  "default": b"0123456789abcdefghijklmnopqrstuvwxyz"},
+                 {"kind": "var", "index": 0x2102, "name": "u32", "dt": rc.UNSIGNED32, "access": "rw", "default": 5},
+                 {"kind": "var", "index": 0x2103, "name": "locked", "dt": rc.DOMAIN, "access": "ro",
+                  "default": b"read-only"}]
+    for first in (True, False):
+        pre = [] if first else [ok_before]
+        for k in (0, 1, 2, 3):
+            yield {"kind": "server", "od": od_t, "ops": pre + [
+                {"op": "upload", "index": 0x2101, "sub": 0, "stop_after": k},
+                {"op": "toggle", "dir": "up"}, {"op": "upload", "index": 0x2101, "sub": 0}, ok_after]}
+        for stl in ("seg_size", "seg_nosize"):
+            for k in (0, 1, 2):
+                for payload in (None, b"", b"x", b"xyz", b"abcdefg"):
+                    tg = {"op": "toggle", "dir": "down"}
+                    if payload is not None:
+                        tg.update(last=True, payload=payload)
+                    for index, data in ((0x2101, b"ABCDEFGHIJKLMNOPQRSTUVWXYZ"), (0x2103, b"ABCDEFGHIJKLMNOPQRSTUVWXYZ")):
+                        yield {"kind": "server", "od": od_t, "ops": pre + [
+                            {"op": "download", "index": index, "sub": 0, "data": data, "style": stl, "stop_after": k},
+                            tg, {"op": "upload", "index": index, "sub": 0}, ok_after,
+                            {"op": "upload", "index": index, "sub": 0}]}
+            # numeric entries: the wrong-toggle last segment carries exactly / not exactly the entry's size
+            for index, sub, width in ((0x2102, 0, 4), (0x2001, 2, 2), (0x2001, 0, 1)):
+                for n in (0, width, width + 1):
+                    yield {"kind": "server", "od": od_t, "ops": pre + [
+                        {"op": "download", "index": index, "sub": sub, "data": bytes(range(1, n + 1)), "style": stl,
+                         "stop_after": 0},
+                        {"op": "toggle", "dir": "down", "last": True, "payload": bytes(range(1, n + 1))},
+                        {"op": "upload", "index": index, "sub": sub}, ok_after]}
+    # an unknown command in the middle of an open transfer: the abort names that transfer (or echoes
+    # bytes 1..3 of the frame)
+    for b0 in (0xE0, 0xE1, 0xF3, 0xFF):
+        for tail in (struct.pack("<HB", 0x2001, 2) + bytes([9, 0, 0, 0]), bytes([0xFF] * 7), bytes(7)):
+            for k in (0, 1):
+                for opn in ({"op": "upload", "index": 0x2101, "sub": 0, "stop_after": k},
+                            {"op": "download", "index": 0x2101, "sub": 0, "data": b"ABCDEFGHIJKLMNOPQRSTUVWXYZ",
+                             "style": "seg_size", "stop_after": k}):
+                    yield {"kind": "server", "od": od_t, "ops": [
+                        ok_before, opn, {"op": "junk", "frame": bytes([b0]) + tail}, ok_after,
+                        {"op": "upload", "index": 0x2101, "sub": 0}]}
+    # read callbacks in front of entries that must not / cannot be read: a callback does not make a
+    # write-only entry readable, nor a missing index / sub-index exist; a callback returning None leaves
+    # an entry without value without value
+    od_cb = [good,
+             {"kind": "var", "index": 0x2000, "name": "cmd", "dt": rc.UNSIGNED16, "access": "wo", "default": 7},
+             {"kind": "record", "index": 0x2001, "name": "rec", "members": [
+                 {"sub": 0, "name": "n", "dt": rc.UNSIGNED8, "access": "ro", "default": 2},
+                 {"sub": 2, "name": "m", "dt": rc.UNSIGNED16, "access": "wo"}]},
+             {"kind": "array", "index": 0x2200, "name": "arr", "members": [
+                 {"sub": 0, "name": "n", "dt": rc.UNSIGNED8, "access": "ro", "default": 8},
+                 {"sub": 1, "name": "el", "dt": rc.DOMAIN, "access": "wo", "default": b"default-bytes"},
+                 {"sub": 3, "name": "el3", "dt": rc.DOMAIN, "access": "wo"}]},
+             {"kind": "var", "index": 0x2300, "name": "empty", "dt": rc.UNSIGNED16, "access": "rw"},
+             {"kind": "record", "index": 0x2301, "name": "rec2", "members": [
+                 {"sub": 0, "name": "n", "dt": rc.UNSIGNED8, "access": "ro", "default": 1},
+                 {"sub": 1, "name": "m", "dt": rc.DOMAIN, "access": "ro"}]}]
+    targets = [(0x2000, 0, rc.UNSIGNED16, True), (0x2001, 2, rc.UNSIGNED16, True), (0x2200, 1, rc.DOMAIN, True),
+               (0x2200, 3, rc.DOMAIN, True), (0x2200, 6, rc.DOMAIN, True), (0x2300, 0, rc.UNSIGNED16, False),
+               (0x2301, 1, rc.DOMAIN, False), (0x2001, 5, rc.UNSIGNED16, False), (0x2999, 0, rc.UNSIGNED16, False)]
+    for index, sub, dt, wo in targets:
+        for how in ("typed", "bytes", "none"):
+            if how == "none":
+                ret = None
+            elif dt == rc.UNSIGNED16:
+                ret = 0x1234 if how == "typed" else b"\x34\x12"
+            else:
+                ret = b"live" if how == "typed" else b"live-value-0123456789"
+            for ncb in (1, 2, 3):
+                for cb in range(ncb):
+                    cbs = {"read_cb": [{"index": index, "sub": sub, "ret": ret, "cb": cb},
+                                       {"index": 0x2100, "sub": 0, "ret": None, "cb": (cb + 1) % ncb}],
+                           "read_cbs": ncb}
+                    yield dict(cbs, kind="server", od=od_cb, ops=[
+                        {"op": "upload", "index": index, "sub": sub},
+                        {"op": "upload", "index": index, "sub": sub, "blockinit": True},
+                        {"op": "upload", "index": index, "sub": sub, "stop_after": 1},
+                        ok_before, ok_after, {"op": "upload", "index": index, "sub": sub}])
+                    ops = [{"op": "upload", "index": index, "sub": sub},
+                           {"op": "upload", "index": index, "sub": sub, "via": "open", "buffering": 0},
+                           {"op": "upload", "index": 0x2100, "sub": 0}]
+                    if wo:
+                        ops.insert(2, {"op": "upload", "index": index, "sub": sub, "via": "open", "buffering": 0,
+                                       "block": True})
+                    yield dict(cbs, kind="client_api", od=od_cb, ops=ops)
     # unknown / unsupported commands
     for b0 in list(range(0xE0, 0x100)) + [0xC0, 0xC2, 0xC4, 0xC6]:
         for first in (True, False):
@@ -405,7 +513,21 @@ def client_api_case(draw):
                 op["buffering"] = draw(st.sampled_from([0, 3, 7, 1024]))
                 op["size_decl"] = draw(st.booleans())
         ops.append(op)
-    return {"kind": "client_api", "od": od, "ops": ops}
+    case = {"kind": "client_api", "od": od, "ops": ops}
+    if draw(st.integers(0, 2)) == 0:
+        # read callbacks registered on the local node, preferably in front of what the ops address
+        touched = [e for e in ent if any((e[0], e[1]) == (o["index"], o["sub"]) for o in ops)] or ent
+        ncb = draw(st.sampled_from([1, 2, 3]))
+        cbs = []
+        for (i, s_, spec, kind) in draw(st.lists(st.sampled_from(touched), min_size=1, max_size=3,
+                                                 unique_by=lambda e: (e[0], e[1]))):
+            how = draw(st.sampled_from(["typed", "bytes", "none"]))
+            ret = None if how == "none" else draw(c02.typed_value(spec["dt"], 30) if how == "typed"
+                                                  else st.binary(max_size=20))
+            cbs.append({"index": i, "sub": s_, "ret": ret, "cb": draw(st.integers(0, ncb - 1))})
+        case["read_cb"] = cbs
+        case["read_cbs"] = ncb
+    return case
 
 
 def client_matrix():
